@@ -6,6 +6,7 @@ From Coq Require Import ZArith List Bool Reals.
 From Flocq Require Import IEEE754.Binary.
 Import ListNotations.
 Require Import SZV.Base.FloatOps SZV.Model.Quant SZV.Model.QuantFloat SZV.Model.QuantFloat2 SZV.Model.QuantFloat3 SZV.Proofs.Quant_proofs SZV.Proofs.QuantFloat_proofs SZV.Proofs.QuantFloat2_proofs SZV.Proofs.QuantFloatNz_proofs SZV.Proofs.QuantFloat3_proofs.
+Require Import SZV.Model.Consistency SZV.Proofs.Consistency_proofs.
 Local Open Scope Z_scope.
 
 (* generic: lock-step and bound from the three obligations (any value type, predictor, quantiser) *)
@@ -151,6 +152,11 @@ Proof. exists 0x3feabb9740000000, 128, [0x4639c2f4; 0x4639c2f4; 0x46381b1e; 0x46
 Print Assumptions C01_float1d_code_zero_refuted.
 
 (* non-vacuity: a run on which every check passes *)
+(* read from the source on every run: the double compressor/decompressor files never use the float header length, nor the float files the double one (a verbatim double stream read at the float offset comes back shifted by one element) *)
+Theorem C01_header_constants_by_type : header_constants_ok = true.
+Proof. exact header_constants_hold. Qed.
+Print Assumptions C01_header_constants_by_type.
+
 Example C01_ex : let xs := [0x3F800000; 0x3F8CCCCD; 0x3F99999A; 0x40000000; 0x3FA66666] in
   let c := fctx_of 0x3FA999999999999A 32 xs in fchecks1 c [] xs = (true, true, true, true).
 Proof. vm_compute. reflexivity. Qed.
